@@ -224,7 +224,7 @@ def run(ctx):
                 "logic of the dispatcher is bypassed",
                 loc=ev.loc,
             )
-    if not callers:
+    if not callers and not any(i["rule"] in ("R01.a", "R01.b") and i["verdict"] != "holds" for i in chk.instances):
         raise AnalysisError("no caller of Schedule.add found")
     # wholesale installs: __init__ and the setter check before assigning
     for m in [sched.methods.get("__init__"), sched.setters.get("schedule")]:
